@@ -1794,69 +1794,84 @@ static int mod_deflate_choose_encoding (const char *value, plugin_data *p, const
 	UNUSED(value);
 	UNUSED(label);
       #else
-        for (; *value; ++value) {
+        while (*value) {
             const char *v;
-            while (*value == ' ' || *value == ',') ++value;
+            int enc = 0;
+            while (*value == ' ' || *value == '\t' || *value == ',') ++value;
             v = value;
-            while (*value!=' ' && *value!=',' && *value!=';' && *value!='\0')
+            while (*value!=' ' && *value!='\t' && *value!=',' && *value!=';'
+                   && *value!='\0')
                 ++value;
             switch (value - v) {
               case 2:
                #ifdef USE_BROTLI
                 if (0 == memcmp(v, "br", 2))
-                    accept_encoding |= HTTP_ACCEPT_ENCODING_BR;
+                    enc = HTTP_ACCEPT_ENCODING_BR;
                #endif
                 break;
               case 4:
                #ifdef USE_ZLIB
                 if (0 == memcmp(v, "gzip", 4))
-                    accept_encoding |= HTTP_ACCEPT_ENCODING_GZIP;
+                    enc = HTTP_ACCEPT_ENCODING_GZIP;
                #endif
                #ifdef USE_ZSTD
                 #ifdef USE_ZLIB
                 else
                 #endif
                 if (0 == memcmp(v, "zstd", 4))
-                    accept_encoding |= HTTP_ACCEPT_ENCODING_ZSTD;
+                    enc = HTTP_ACCEPT_ENCODING_ZSTD;
                #endif
                 break;
               case 5:
                #ifdef USE_BZ2LIB
                 if (0 == memcmp(v, "bzip2", 5))
-                    accept_encoding |= HTTP_ACCEPT_ENCODING_BZIP2;
+                    enc = HTTP_ACCEPT_ENCODING_BZIP2;
                #endif
                 break;
               case 6:
                #ifdef USE_ZLIB
                 if (0 == memcmp(v, "x-gzip", 6))
-                    accept_encoding |= HTTP_ACCEPT_ENCODING_X_GZIP;
+                    enc = HTTP_ACCEPT_ENCODING_X_GZIP;
                #endif
                 break;
               case 7:
                #ifdef USE_ZLIB
                 if (0 == memcmp(v, "deflate", 7))
-                    accept_encoding |= HTTP_ACCEPT_ENCODING_DEFLATE;
+                    enc = HTTP_ACCEPT_ENCODING_DEFLATE;
                #endif
                #ifdef USE_BZ2LIB
                 if (0 == memcmp(v, "x-bzip2", 7))
-                    accept_encoding |= HTTP_ACCEPT_ENCODING_X_BZIP2;
+                    enc = HTTP_ACCEPT_ENCODING_X_BZIP2;
                #endif
                 break;
              #if 0
               case 8:
                 if (0 == memcmp(v, "identity", 8))
-                    accept_encoding |= HTTP_ACCEPT_ENCODING_IDENTITY;
+                    enc = HTTP_ACCEPT_ENCODING_IDENTITY;
                 else if (0 == memcmp(v, "compress", 8))
-                    accept_encoding |= HTTP_ACCEPT_ENCODING_COMPRESS;
+                    enc = HTTP_ACCEPT_ENCODING_COMPRESS;
                 break;
              #endif
               default:
                 break;
             }
-            if (*value == ';') {
-                while (*value != ',' && *value != '\0') ++value;
+            while (*value == ' ' || *value == '\t') ++value;
+            while (*value == ';') {
+                /* parameters; weight "q=0" ("q=0." "q=0.0" "q=0.00" "q=0.000")
+                 * means "not acceptable" (RFC 9110 12.4.2, 12.5.3) */
+                do { ++value; } while (*value == ' ' || *value == '\t');
+                if ((value[0] == 'q' || value[0] == 'Q')
+                    && value[1] == '=' && value[2] == '0') {
+                    const char *q = value+3;
+                    if (*q == '.') { do { ++q; } while (*q == '0'); }
+                    if (*q == '\0' || *q == ',' || *q == ';'
+                        || *q == ' ' || *q == '\t')
+                        enc = 0;
+                }
+                while (*value != ';' && *value != ',' && *value != '\0')
+                    ++value;
             }
-            if (*value == '\0') break;
+            accept_encoding |= enc;
         }
       #endif
 
